@@ -81,7 +81,16 @@ func NewLevelListFromDocument(fs storage.FileSystem, dataOwnership kv.DataOwners
 }
 
 func (ll *LevelList) Get(key []byte) (kv.Entry, error) {
+	// Level-0 tables overlap and are visited in flush order (oldest first), so
+	// among them the last hit is the newest version. Deeper levels hold one
+	// candidate each and are only consulted when level 0 has no version.
+	l0Tables := ll.At(0).tables
+	var l0Hit kv.Entry
 	for t := range ll.AllTablesForKey(key) {
+		inL0 := l0Tables.Has(t)
+		if !inL0 && l0Hit != nil {
+			break
+		}
 		v, err := t.Get(key)
 		if err != nil {
 			if err == kv.ErrNotFound {
@@ -89,7 +98,13 @@ func (ll *LevelList) Get(key []byte) (kv.Entry, error) {
 			}
 			return nil, fmt.Errorf("table %#v, %w", t, err)
 		}
-		return v, nil
+		if !inL0 {
+			return v, nil
+		}
+		l0Hit = v
+	}
+	if l0Hit != nil {
+		return l0Hit, nil
 	}
 	return nil, kv.ErrNotFound
 }
